@@ -270,5 +270,19 @@ example : period exCfg exQuery =
     [⟨0, [], [("sat", "B")], 50, 60⟩, ⟨1, [], [("sat", "AB")], 10, 12⟩, ⟨2, [], [("sat", "B")], 10, 15⟩] with
   | .ok (.flat [a]) => a.id == 0 | _ => false)
 
+-- membership, length, ValueError
+#guard (match containsT exCfg [exFile] (exT0 + 5) with | .ok true => true | _ => false)
+#guard (match containsT exCfg [exFile] (exT1 + 1) with | .ok false => true | _ => false)
+#guard (match len exCfg [exFile] with | .ok 1 => true | _ => false)
+#guard (match len exCfg [] with | .ok 0 => true | _ => false)
+#guard (match find exCfg { start := some exT0, stop := some exT0 } true .none false [exFile] with
+  | .error .valueError => true | _ => false)
+-- the same file in a `{year}{doy}` layout is well placed as well and found by the same query
+def exCfg2 : Config := { layout := [⟨false, [.year, .doy]⟩] }
+def exFile2 : FileRec := { exFile with dirs := [⟨{ year := some 2018, doy := some 31 }, []⟩] }
+example : wellPlaced exCfg2 exFile2 = true := by decide +kernel
+#guard (match findRaw exCfg2 exQuery [exFile2], findRaw exCfg exQuery [exFile] with
+  | .ok [a], .ok [b] => a.id == 7 && b.id == 7 | _, _ => false)
+
 assert_axioms C01_nothing_else C01_dir_kept_of_overlap C01_find_spec C01_value_error
   C01_bundle_partition C01_contains_iff C01_len_eq C01_layout_independent
